@@ -105,6 +105,8 @@ def run(pr, repo):
     extra = sorted(readers - allowed)
     pr.add(Ground('FRAME: attribute .chains is read only by the declared functions (selection is applied in the record reader only)',
                   not extra, detail=str(extra), kind='aux', backend='frame-checker'))
+    frames.clause(pr, repo, 'options.titrate_only is written by the argument parser only (the chain selection does not edit other options)',
+                  'titrate_only', 'writers', set())
     pr.assumptions += ['stutter/simulation rule (DESIGN 1.1 iii) lifts the per-record obligations to whole files',
                        'composition step: the rest of the pipeline is a function of the (conformation, atom) sequence (C03); '
                        'bounded monitor stands in for it', 'atom-name field ranges over the listed classes']
@@ -195,6 +197,27 @@ def bounded(pr):
             if d and len(viol) < 3:
                 viol.append({'what': '%s (%s) -c %s differs from the file with the other chains deleted: %s' % (name, v, s, d[:2]),
                              'replay': None})
+    # the selection together with another option that names chains (--titrate_only writes a blank chain as "_", -c as " "): the
+    # selection must not edit what the other option says
+    for name, blank, sel, extra in (('3SGB-subset', 'I', [' '], ['-i', '_:7,_:10,_:13']), ('3SGB-subset', 'I', ['E', ' '], ['-i', '_:7,E:102']),
+                                    ('1HPX', None, ['A'], ['-i', 'A:25,A:30']), ('1HPX', 'B', [' '], ['-i', '_:25,_:30', '--protonate-all'])):
+        lines = native.pdb_lines(name)
+        if blank:
+            lines = [(l[:21] + ' ' + l[22:]) if l[:6] in ('ATOM  ', 'HETATM') and l[21] == blank else l for l in lines]
+        opts = []
+        for c in sel:
+            opts += ['-c', c]
+        deleted = [l for l in lines if not (l[:6] in ('ATOM  ', 'HETATM') and l[21] not in sel)]
+        ev += 1
+        classes.add(('with options', tuple(extra[:1]), len(sel)))
+        try:
+            a, b = native.record(native.run_text(lines, opts + extra)), native.record(native.run_text(deleted, extra))
+            d = native.diff_records(a, b, tol=1e-9)
+        except (Exception, SystemExit) as e:      # noqa
+            d = ['%s: %s' % (type(e).__name__, e)]
+        if d and len(viol) < 3:
+            viol.append({'what': '%s -c %s %s differs from the file with the other chains deleted (same further options): %s'
+                                 % (name, sel, extra, d[:2]), 'replay': None})
     pr.bounded.append({'name': 'C13-monitor: chain selection vs deletion on real runs', 'evaluations': ev,
                        'distinct_nontrivial': len(classes), 'bound': '%d structure/selection pairs x {as is, no TER/OXT, lower-case chain id}' % len(cases),
                        'rule': 'whole-pipeline records compared to 1e-9', 'violations': viol})
